@@ -315,6 +315,11 @@ Definition signed_data (v2 : bool) (c : container) : list N :=
   | _, _ => []
   end.
 
+(* the "Signed data as parsed" record of AHABContainer.verify for a parsed container: the re-exported signed data must be the
+   bytes that were parsed (recorded only when the container yields signed data) *)
+Definition signed_as_parsed (v2 : bool) (parsed : list N) (c : container) : bool :=
+  eqb_list (signed_data v2 c) (firstn (length (signed_data v2 c)) parsed).
+
 Fixpoint map_res {A B} (f : A -> res B) (l : list A) : res (list B) :=
   match l with [] => Ok [] | x :: t => bind (f x) (fun y => bind (map_res f t) (fun ys => Ok (y :: ys))) end.
 
@@ -424,7 +429,10 @@ Definition container_verify_ok (p : params) (cc : container_cfg) (c : container)
   && srk_uniform (sb_srk (c_sb c))
   && forallb (fun e => negb (flags_enc (p_v2 p) (i_flags e)) || match sb_blob (c_sb c) with Some _ => true | None => false end) (c_images c)
   && (if flag_srk_set (c_flags c) =? 0 then true
-      else match sb_srk (c_sb c), sb_sig (c_sb c) with
+      else
+        (* "Used SRK key ID": chip_config.used_srk_id (configuration value) must not be revoked by the mask in the flags *)
+        negb (Z.testbit (flag_revoke (c_flags c)) (cc_used cc))
+        && match sb_srk (c_sb c), sb_sig (c_sb c) with
            | _ :: _, Some _ => (cc_sigmode cc =? 2) || cc_sig_ok cc
            | _, _ => false
            end).
@@ -510,6 +518,9 @@ Definition header_parse (v2 : bool) (l : list N) : res (Z * Z * Z * Z * Z * Z) :
 Definition header_reexport (v2 : bool) (h : Z * Z * Z * Z * Z * Z) : list N :=
   let '(length, flags, sw, fuse, nimg, _) := h in
   header_bytes_raw (gen_version_container v2) length flags sw fuse nimg (zalign (16 + nimg * 128) gen_container_alignment).
+(* the same record for the 16 header bytes alone *)
+Definition header_as_parsed (v2 : bool) (parsed : list N) (h : Z * Z * Z * Z * Z * Z) : bool :=
+  eqb_list (header_reexport v2 h) (firstn 16 parsed).
 Definition iae_parse (l : list N) : iae :=
   {| i_raw_off := rd l 0 4; i_size := rd l 4 4; i_load := rd l 8 8; i_entry := rd l 16 8; i_flags := rd l 24 4; i_meta := rd l 28 4;
      i_hash := slice l 32 96; i_iv := slice l 96 128; i_image := []; i_plain := []; i_gap := 0; i_size_align := 0; i_ele := false |}.
